@@ -1009,11 +1009,21 @@ theorem triggeredProxy_fields (x : Proxy) :
     split <;> simp
 
 theorem inv_queueOrTrigger {s : State} {x z : Proxy} (h : Inv s) (hz : z ∈ s.pool)
-    (hk : x.pt = z.pt ∧ x.name = z.name) (hw : x.wjp = true → x.manual = true) : Inv (queueOrTrigger s x) := by
+    (hk : x.pt = z.pt ∧ x.name = z.name) (hpx : POK x) : Inv (queueOrTrigger s x) := by
+  have hw : x.wjp = true → x.manual = true := hpx.1
   unfold queueOrTrigger
   have hf := triggeredProxy_fields x
   have h1 : Inv (s.put (triggeredProxy x)) :=
     inv_put h hz ⟨hf.1.trans hk.1, hf.2.1.trans hk.2⟩ (pok_triggeredProxy x hw) (fun _ => hf.2.2)
+  split
+  · -- waiting on job preparation already: only the flag is raised
+    rename_i hwjp
+    refine inv_put h hz hk ⟨fun _ => rfl, ?_⟩ (fun _ => rfl)
+    intro hs
+    have hxe : x.status = .expired := hs
+    have hm := (hpx.2 hxe).2.1
+    rw [hw hwjp] at hm
+    exact absurd hm (by decide)
   simp only
   split
   · exact h1
@@ -1046,7 +1056,7 @@ theorem inv_trigger {g : Graph} {s : State} (p : Int) (n : String) (h : Inv s) :
     split
     · exact h
     · have hm := get?_some_mem hx
-      exact inv_queueOrTrigger h hm.1 ⟨rfl, rfl⟩ (h.1 x hm.1).1
+      exact inv_queueOrTrigger h hm.1 ⟨rfl, rfl⟩ (pok_core rfl rfl rfl rfl rfl rfl (h.1 x hm.1))
 
 theorem inv_loadFromPoint (g : Graph) : Inv (loadFromPoint g) := by
   unfold loadFromPoint
